@@ -19,16 +19,21 @@ EXTENDS Integers, Sequences, FiniteSets, TLC, Json, IOUtils, SequencesExt
 Entries == {"aperture_photometry", "do_photometry", "aperture_mask", "aperture_stats", "background2d", "local_background",
             "bkg_estimators", "detect_threshold", "detect_sources", "deblend_sources", "source_finder", "source_catalog",
             "find_peaks", "daofinder", "iraffinder", "starfinder", "centroids", "centroid_sources", "profiles", "psf_photometry",
-            "iterative_psf", "calc_total_error", "utils", "morphology", "aperture_mask_edge", "stats_large"}
+            "iterative_psf", "calc_total_error", "utils", "morphology", "aperture_mask_edge", "stats_large",
+            "sky_apertures", "annuli", "fit_gaussian", "psf_matching", "datasets", "harmonics", "interpolators", "segment_cutouts"}
 Reps == {"i8", "i2", "u2", "f4", "bigendian", "fortran", "strided", "ma_nomask", "ma_allfalse", "nddata", "quantity", "mixed_units"}
 NDDataEntries == {"aperture_photometry", "aperture_stats", "psf_photometry"}
 \* entry points whose outputs are in data units (so Quantity inputs must give Quantity outputs)
-UnitEntries == {"aperture_mask_edge", "aperture_photometry", "do_photometry", "aperture_stats", "background2d", "local_background", "detect_threshold",
+UnitEntries == {"aperture_mask_edge", "sky_apertures", "annuli", "interpolators", "segment_cutouts", "aperture_photometry", "do_photometry", "aperture_stats", "background2d", "local_background", "detect_threshold",
                 "source_catalog", "find_peaks", "profiles", "psf_photometry", "calc_total_error"}
 \* entry points that take an error array next to the data (mixing units must be rejected)
-ErrorEntries == {"aperture_photometry", "do_photometry", "aperture_stats", "source_catalog", "profiles", "psf_photometry", "centroids", "find_peaks"}
+ErrorEntries == {"sky_apertures", "annuli", "aperture_photometry", "do_photometry", "aperture_stats", "source_catalog", "profiles", "psf_photometry", "centroids", "find_peaks"}
 \* Background2D documents that integer input gives integer (rounded) output maps
-Expect(e, r) == CASE e = "background2d" /\ r \in {"i8", "i2", "u2"} -> "rounded"
+\* combinations the API does not offer: Poisson noise is applied to counts (dimensionless by nature); the harmonic fitters are
+\* numerical helpers on plain sample vectors
+NoUnitsOffered == {"datasets", "harmonics"}
+Expect(e, r) == CASE e \in {"background2d", "interpolators"} /\ r \in {"i8", "i2", "u2"} -> "rounded"
+                  [] e \in NoUnitsOffered /\ r = "quantity" -> "skip"
                   [] r = "nddata" -> IF e \in NDDataEntries THEN "same" ELSE "skip"
                   [] r = "quantity" -> IF e \in UnitEntries THEN "units" ELSE "same"
                   [] r = "mixed_units" -> IF e \in ErrorEntries THEN "raise" ELSE "skip"
